@@ -797,7 +797,7 @@ func r3CancelPlan(m map[string]string, names []string) (tok string, note *r3Note
 		}
 		o.cancelOn = note.ch
 		o.cancelDelay = time.Duration(pause) * time.Millisecond / 4
-		o.extraWait = time.Duration(pause)*time.Millisecond + 3*time.Second
+		o.extraWait = time.Duration(pause)*time.Millisecond + 10*time.Second
 	}
 	return
 }
@@ -857,6 +857,31 @@ func r3GrpcTargetRetry() (addr string, stop func()) {
 		panic(fmt.Sprint("no target: ", last))
 	}
 	return
+}
+
+// r3UndecodableLines replaces every placeholder line of the grpc/json ammo file the config names by a line no JSON decoder
+// accepts, and lets the provider go on after such a line (`continueonerror: true`: it delivers an INVALID ammo).
+func r3UndecodableLines(conf string) string {
+	i := strings.Index(conf, `file: "`)
+	if i < 0 {
+		panic("no ammo file in config")
+	}
+	rest := conf[i+len(`file: "`):]
+	file := rest[:strings.IndexByte(rest, '"')]
+	data, err := afero.ReadFile(shot.FS, file)
+	if err != nil {
+		panic(err)
+	}
+	lines := strings.Split(string(data), "\n")
+	for k, l := range lines {
+		if strings.Contains(l, "__UNDECODABLE_LINE__") {
+			lines[k] = `{"tag": "lost", "call": "target.TargetService.Hello", "payload": {"name": `
+		}
+	}
+	if err := afero.WriteFile(shot.FS, file, []byte(strings.Join(lines, "\n")), 0o644); err != nil {
+		panic(err)
+	}
+	return strings.Replace(conf, ", passes: 1", ", passes: 1, continueonerror: true", 1)
 }
 
 var _ = sort.Strings
